@@ -287,8 +287,8 @@ def run(ctx):
   ctx.extra['small_scope'] = dict(bounds='<= 3 decision points (a multi-choice counts once), <= 3 candidates, k <= 3, all distinct x sorted modes, conditional nesting <= 2',
                                   specs_with_at_most_2_points=len(small2), specs_with_3_points=len(small3))
   if ctx.thorough:
-    chosen_small = small2 + [small3[i] for i in sorted(rng.sample(range(len(small3)), 2500))]
-    ctx.extra['small_scope']['swept'] = 'every spec with <= 2 decision points (exhaustive) + a seeded sample of 2500 of the 3-point specs'
+    chosen_small = small2 + [small3[i] for i in sorted(rng.sample(range(len(small3)), 4000))]
+    ctx.extra['small_scope']['swept'] = 'every spec with <= 2 decision points (exhaustive) + a seeded sample of 4000 of the 13 200 3-point specs'
   else:
     small1 = [s for s in small2 if G.count_points(s) <= 1]          # every (n, k, distinct, sorted) mode of one decision point: always swept
     small2b = [s for s in small2 if G.count_points(s) == 2]
